@@ -785,3 +785,11 @@ Contract(
     modifies=[Field(lambda c: c.a.self, POOLF)],
     props=("C04",),
 )
+
+
+# C13 under concurrency: a Config that exists before the call (the server's, the shared default) is not written at all while
+# serving - not even temporarily: other connections read it at the same time.  Every write to a Config field inside these
+# functions (and the helpers executed in place) must go to an object allocated during the call (obligation no-transient-write).
+for _k in (DISP + "._marshaled_single_dispatch", DISP + "._unmarshaled_dispatch", DISP + "._marshaled_dispatch", DISP + "._dispatch",
+           "jsonrpclib.SimpleJSONRPCServer.validate_request", HANDLER + ".do_POST", CGI + ".handle_jsonrpc"):
+    __import__("pyvc.contracts", fromlist=["REGISTRY"]).REGISTRY[_k].never_written = _CFG_FIELDS
